@@ -18,7 +18,7 @@ CONSTANTS
   SigChoices(_),   \* SigChoices(lib): signatures that may be declared next
   Pick(_),         \* Pick(S): the argument combinations offered at one step (S itself, or a random sample in simulation)
   Mode,            \* "single": one signature, canonical objects, boundary tuples;  "seq": call sequences
-  FullCross,       \* single mode: every combination of boundary values (else a covering diagonal)
+  FullCross,       \* single mode: besides the covering diagonal, every combination of boundary values (<= 2 parameters)
   MaxSigs,         \* signatures per library
   MaxVariants,     \* wrapper variants per library (seq: each must be called MinCalls times)
   MaxCalls,        \* wrapper calls per behaviour (constructor calls of declared constructors included)
